@@ -51,6 +51,15 @@ func VerifC18Expr() {
 	nerFn := fns["NetworkErrorRatio"].(func() toFloat64)()
 	rcrFn := fns["ResponseCodeRatio"].(func(int, int, int, int) toFloat64)(500, 600, 0, 600)
 	latFn := fns["LatencyAtQuantileMS"].(func(float64) toInt)(50.0)
+	if verifSymbolic() {
+		// wiring of the function map to the metrics (the metric values come from stubs here)
+		verifAssert("function-map-wiring", verifAnd(verifAnd(nerFn(cb) == ner, rcrFn(cb) == rcr), latFn(cb) == int(lat)))
+	}
+	// the operators are exercised on mappers returning the symbolic values directly, so that a
+	// counterexample replays natively without stubs
+	nerFn = func(c *CircuitBreaker) float64 { return ner }
+	rcrFn = func(c *CircuitBreaker) float64 { return rcr }
+	latFn = func(c *CircuitBreaker) int { return int(lat) }
 
 	cf := verifF64("constF")
 	verifAssume(verifAnd(cf >= -1, cf <= 1001))
